@@ -329,4 +329,83 @@ theorem stepsOK_filter (p : JV → Bool) (d : JV) (hw : TopNodup d) (ls : List L
     rw [mem_filterLocs p d ls l c hc, hls.mem l c hc]
     simp only [sel, List.mem_filter]
 
+/-! ## a slice selects no index twice -/
+
+theorem progression_pairwise_lt (n : Nat) (a d : Int) (hd : 0 < d) : (progression n a d).Pairwise (· < ·) := by
+  simp only [progression]
+  rw [List.pairwise_map]
+  refine List.Pairwise.imp ?_ (List.pairwise_lt_range (n := n))
+  intro i j hij
+  have : (i : Int) < j := by exact_mod_cast hij
+  have := Int.mul_lt_mul_of_pos_right this hd
+  omega
+
+theorem progression_pairwise_gt (n : Nat) (a d : Int) (hd : d < 0) : (progression n a d).Pairwise (· > ·) := by
+  simp only [progression]
+  rw [List.pairwise_map]
+  refine List.Pairwise.imp ?_ (List.pairwise_lt_range (n := n))
+  intro i j hij
+  have h1 : (i : Int) < j := by exact_mod_cast hij
+  have := Int.mul_lt_mul_of_neg_right h1 hd
+  omega
+
+theorem mem_progression_ge (n : Nat) (a d : Int) (hd : 0 ≤ d) : ∀ i ∈ progression n a d, a ≤ i := by
+  intro i hi
+  simp only [progression, List.mem_map, List.mem_range] at hi
+  obtain ⟨k, _, rfl⟩ := hi
+  have : 0 ≤ (k : Int) * d := Int.mul_nonneg (by omega) hd
+  omega
+
+theorem mem_takeWhile_true {α : Type} (p : α → Bool) : ∀ (l : List α) (a : α), a ∈ l.takeWhile p → p a = true
+  | [], _, h => by cases h
+  | x :: r, a, h => by
+    simp only [List.takeWhile] at h
+    cases hp : p x with
+    | false => simp [hp] at h
+    | true =>
+      simp only [hp, List.mem_cons] at h
+      rcases h with rfl | h
+      · exact hp
+      · exact mem_takeWhile_true p r a h
+
+theorem up_nodup (n : Nat) (a d : Int) (p : Int → Bool) (ha : 0 ≤ a) (hd : 0 < d) :
+    (((progression n a d).takeWhile p).map Int.toNat).Nodup := by
+  rw [List.Nodup, List.pairwise_map]
+  have hp := (progression_pairwise_lt n a d hd).sublist (List.takeWhile_sublist p)
+  refine List.Pairwise.imp_of_mem ?_ hp
+  intro x y hx hy hxy
+  have hx' := mem_progression_ge n a d (Int.le_of_lt hd) x ((List.takeWhile_sublist p).subset hx)
+  have hy' := mem_progression_ge n a d (Int.le_of_lt hd) y ((List.takeWhile_sublist p).subset hy)
+  omega
+
+theorem down_nodup (n : Nat) (a d stop : Int) (hs : -1 ≤ stop) (hd : d < 0) :
+    (((progression n a d).takeWhile fun i => decide (stop < i)).map Int.toNat).Nodup := by
+  rw [List.Nodup, List.pairwise_map]
+  have hp := (progression_pairwise_gt n a d hd).sublist (List.takeWhile_sublist (fun i => decide (stop < i)))
+  refine List.Pairwise.imp_of_mem ?_ hp
+  intro x y hx hy hxy
+  have hx' := mem_takeWhile_true _ _ x hx
+  have hy' := mem_takeWhile_true _ _ y hy
+  simp only [decide_eq_true_eq] at hx' hy'
+  omega
+
+/-- a slice selects no index twice -/
+theorem sliceIdx_nodup (n : Nat) (s e t : Option Int) : (sliceIdx n s e t).Nodup := by
+  unfold sliceIdx
+  simp only []
+  generalize hst : (if s.getD 0 < 0 then max (s.getD 0 + (n : Int)) 0 else s.getD 0) = start
+  have hstart : 0 ≤ start := by rw [← hst]; split <;> omega
+  by_cases h0 : t.getD 1 = 0 ∨ (n : Int) ≤ start
+  · rw [if_pos h0]; exact List.nodup_nil
+  · rw [if_neg h0]
+    by_cases hpos : 0 < t.getD 1
+    · rw [if_pos hpos]; exact up_nodup n start _ _ hstart hpos
+    · rw [if_neg hpos]
+      have hneg : t.getD 1 < 0 := by
+        have : ¬ (t.getD 1 = 0) := fun h => h0 (Or.inl h)
+        omega
+      apply down_nodup n start _ _ _ hneg
+      cases e with
+      | none => simp only; omega
+      | some e => simp only; split <;> omega
 end OjgVerif.JPMut
